@@ -79,6 +79,7 @@ type Unit struct {
 	oldMem       MemState
 	mayPanic     bool
 	lemmaMode    bool
+	roGlobals    []string
 	maps         map[string]*mapLayer
 	Failed   string // set when the unit could not be encoded at all
 }
@@ -309,7 +310,9 @@ func (u *Unit) validFacts(t types.Type, slots []*Term, objBound *Term) []*Term {
 	lim := tb.BVU(64, 1<<40)
 	markLow := objBound.Op == "bv" && objBound.Val.Cmp(big.NewInt(freshBase)) == 0
 	mark := func(t *Term) {
-		if markLow {
+		if markLow && !tb.isLow(t) {
+			// the solver must know the bound too: emit it before the term builder starts folding it away
+			out = append(out, tb.rawUlt(t, objBound))
 			tb.MarkLow(t)
 		}
 	}
